@@ -275,9 +275,18 @@ let () =
            if not (wt u (TPtr tidn) v) then "illtyped"
            else
              let sv = abs u v in
+             (* does the value mention a constructor the schema files do not define? then the schema says nothing about it *)
+             let rec foreign (x : sval) : bool =
+               match x with
+               | SVec l -> List.exists foreign l
+               | SCtor (id, args) ->
+                 (not (List.exists (fun c -> c.c_id = id) schema))
+                 || List.exists (fun a -> match a with Some y -> foreign y | None -> false) args
+               | SOpaque -> true
+               | _ -> false in
              match spec schema sv with
              | Some b -> (if conforms schema (sdepth sv) TTObject sv then "ok:" else "ok-nonconforming:") ^ hex_of_bytes b
-             | None -> "none" in
+             | None -> if foreign sv then "foreign" else "none" in
          Printf.printf "%s\t%s\t%s\n" id r sp
        with Unsupported -> Printf.printf "%s\tunsupported\n" id)
     | "D" :: id :: mode :: hints :: hx :: _ ->
